@@ -3,6 +3,8 @@ package c10
 
 import (
 	"bytes"
+	"context"
+	"errors"
 	"fmt"
 	"sort"
 	"strings"
@@ -268,7 +270,28 @@ func TestProp_Rotation(t *testing.T) {
 				rp.Expect = map[bool]string{true: "honored", false: "refused"}[expect]
 
 				before := nodeSnap()
+				// A request the model refuses must stay refused when a storage operation
+				// fails during the call (e.g. the existence lookup that makes a replay fail).
+				faulted := ""
+				if !expect && rapid.IntRange(0, 2).Draw(t, "injectFault") == 0 {
+					pos := rapid.IntRange(1, 8).Draw(t, "faultAt")
+					kind := rapid.SampledFrom([]string{"generic", "cancelled"}).Draw(t, "faultKind")
+					ferr := map[string]error{"generic": errors.New("disk failure"), "cancelled": context.Canceled}[kind]
+					w.Rec.Reset()
+					w.Rec.Fault = func(i int, op vkit.Op) error {
+						if i == pos {
+							return &vkit.InjectedError{Inner: ferr}
+						}
+						return nil
+					}
+					faulted = fmt.Sprintf("%s fault at storage operation %d", kind, pos)
+					flags["fault-during-refused-request"] = true
+				}
 				resp, rerr := rotation.RotateNodeCredentials(w.Ctx, w.Store, req, w.O()...)
+				w.Rec.Fault = nil
+				if faulted != "" {
+					hist = append(hist, "("+faulted+")")
+				}
 				rp.Got = map[bool]string{true: "honored", false: "refused"}[rerr == nil]
 				hist = append(hist, fmt.Sprintf("rotate sender=%s ident=%s nodeId=%q inner=%s lookup=[%s] -> %s", rp.Sender, rp.Ident, rp.NodeID, rp.Inner, rp.Lookup, rp.Got))
 				if rp.Via == "previous key" {
